@@ -60,6 +60,7 @@ Theorem send_data_content_nomulti (m helo : bytes) (ext8 : bool) :
   forall fl st, send_data m helo ext8 = Ok (fl, true, Done tt st) ->
   let br := f8 fl || fline fl in
   exists h s l X1 X2 B extra,
+    (exists ct, qh_view m 0 (length m) = Ok (h, ct, (s, l))) /\
     1 <= h <= length m /\
     (h = hpos 0 m \/ exists c0 r, m = c0 :: r /\ is_eol c0 = true /\ skipn h m = after_eol c0 r) /\
     (l <> 0 -> s + l <= length m /\ s <= h /\ (s = 0 \/ is_eol (nth (s - 1) m 0%N) = true) /\
@@ -87,13 +88,14 @@ Proof.
   assert (G0 : good ext8 [] st0 []) by (apply (good_init ext8 st0)).
   rewrite send_qp_S in H. rewrite (need_recode_ok m 0 (length m) Hw) in H. cbn [bind] in H.
   destruct (Nat.eqb_spec (length m) 0) as [|_]; [lia|]. cbv zeta in H. rewrite Em in H. fold rf in H.
-  destruct (qp_header_spec m helo ext8 0 (length m) Hw Hl Hhelo [] (f8 rf || fline rf) st0 G0) as (rh & E & Hd).
+  destruct (qp_header_spec m helo ext8 0 (length m) Hw Hl Hhelo [] (f8 rf || fline rf) st0 G0) as (h0 & ct & cenc & rh & Ev & E & Hd).
   rewrite E in H. destruct rh as [[h mp] st1|why st1]; cbn [bindR bind] in H; [|discriminate].
   unfold hdr_done in Hd. rewrite Em in Hd.
-  destruct Hd as (Hh & (ls & ll & Emp) & _ & (Hpos & Hkind) & H8 & Hlr & t & Gt & Ht & Hcont).
-  destruct Hkind as [->|(bs & bl & ->)]; [|exfalso; apply (Hnm ls ll bs bl Emp)].
+  destruct Hd as (Eh0 & Hh & Emp & _ & (Hpos & Hkind) & H8 & Hlr & t & Gt & Ht & Hcont). subst h0.
+  assert (Hview : exists ct0, qh_view m 0 (length m) = Ok (h, ct0, (fst cenc, snd cenc))) by (exists ct; rewrite Ev; destruct cenc; reflexivity).
+  destruct Hkind as [->|(bs & bl & ->)]; [|exfalso; apply (Hnm _ _ bs bl Emp)].
   unfold hdr_pos in Hpos. rewrite Em in Hpos.
-  destruct (Hcont eq_refl) as (cenc & (Finv & Hnamed & Hsh) & (X1 & X2 & c & Eo & Hc & Hct & U1 & U2)).
+  destruct Hcont as ((Finv & Hnamed & Hsh) & (X1 & X2 & c & Eo & Hc & Hct & U1 & U2)). cbn [mk_of cut_of] in Eo, U1, U2.
   destruct (Nat.ltb_spec (length m) h) as [|_]; [lia|].
   change (0 + h) with h in H.
   destruct (body_content m h (f8 rf || fline rf) st1 ltac:(lia) Hb) as (st2 & O & E2 & Ho2 & Hz2 & Hnz2).
@@ -117,18 +119,18 @@ Proof.
     { rewrite Ehl, skipn_all. unfold body_sent. destruct (f8 rf || fline rf); [apply qp_roundtrip_nil|reflexivity]. }
     destruct (lastlf st1) eqn:Elf.
     + assert (Ec : c = []) by (apply Hct; destruct Gt as (? & _ & _ & _ & Hlf); apply Hlf; exact Elf). subst c.
-      rewrite app_nil_r in U2. exists X2, [], []. split; [exact Hh|]. split; [exact Hpos|]. split; [exact Hfield|].
+      rewrite app_nil_r in U2. exists X2, [], []. split; [exact Hview|]. split; [exact Hh|]. split; [exact Hpos|]. split; [exact Hfield|].
       split; [rewrite outof_wr, Eo, <- !app_assoc; reflexivity|]. split; [left; reflexivity|]. split; [exact U1|]. split; [exact U2|exact Hbody].
     + destruct Hc as [->| ->].
-      * rewrite app_nil_r in U2. exists X2, [], CRLF. split; [exact Hh|]. split; [exact Hpos|]. split; [exact Hfield|].
+      * rewrite app_nil_r in U2. exists X2, [], CRLF. split; [exact Hview|]. split; [exact Hh|]. split; [exact Hpos|]. split; [exact Hfield|].
         split; [rewrite outof_wr, Eo, term_nolf, <- !app_assoc; reflexivity|]. split; [right; split; [reflexivity|exact Ehl]|].
         split; [exact U1|]. split; [exact U2|exact Hbody].
-      * exists (X2 ++ CRLF), [], []. split; [exact Hh|]. split; [exact Hpos|]. split; [exact Hfield|].
+      * exists (X2 ++ CRLF), [], []. split; [exact Hview|]. split; [exact Hh|]. split; [exact Hpos|]. split; [exact Hfield|].
         split; [rewrite outof_wr, Eo, term_nolf, <- !app_assoc; reflexivity|]. split; [left; reflexivity|].
         split; [exact U1|]. split; [exact U2|exact Hbody].
   - assert (Et : t = []) by (apply Ht; left; lia). assert (Ec : c = []) by (apply Hct; exact Et). subst c.
     rewrite app_nil_r in U2. specialize (Hnz2 ltac:(lia)).
-    exists X2, (O ++ (if lastlf st2 then [] else CRLF)), []. split; [exact Hh|]. split; [exact Hpos|]. split; [exact Hfield|].
+    exists X2, (O ++ (if lastlf st2 then [] else CRLF)), []. split; [exact Hview|]. split; [exact Hh|]. split; [exact Hpos|]. split; [exact Hfield|].
     split; [|split; [left; reflexivity|split; [exact U1|split; [exact U2|exact Hnz2]]]].
     rewrite outof_wr, Ho2, Eo. destruct (lastlf st2); [|rewrite term_nolf]; rewrite <- !app_assoc; reflexivity.
 Qed.
